@@ -11,14 +11,23 @@ from .core import Rng
 # property -> stages.  A stage is one engine on one build config with a run budget per tier:
 #   (engine module name, config, quick runs, quick seconds cap, thorough runs, thorough seconds cap, opts)
 PROPS = {
+    'C15': dict(
+        level='exploration',
+        rule=('drbgsim: seeded histories (1..64 ops) of instantiate/reseed/generate/integer-sampling/context-switch/'
+              'snapshot calls with a simulated entropy device; every generate request the library makes (observed at '
+              'the wrapped rand_bytes) is compared with an SP 800-90A Hash_DRBG model; distinct = (previous op, op, '
+              'request-length class, carry probes hit) plus (seed op, length), (sampling op, bit-length class)'),
+        stages=[
+            ('drbgsim', 'A', 40000, 100, 2000000, 1500, {}),
+        ]),
     'C19': dict(
         level='exploration',
         rule=('errsim: generated try/throw programs (<=60 nodes, depth<=8, 3 contexts) run with the real macros and '
               'compared event by event with an abstract exception semantics; a case is distinct by (node kind, '
               'caught?, nesting depth class, enclosing region pair) and by program shape hash'),
         stages=[
-            ('errsim', 'A', 60000, 70, 3000000, 900, {}),
-            ('errsim', 'D', 12000, 50, 600000, 600, {}),
+            ('errsim', 'A', 300000, 60, 6000000, 900, {}),
+            ('errsim', 'D', 40000, 40, 1000000, 600, {}),
         ]),
 }
 
@@ -38,6 +47,7 @@ def cmd_check(prop, tier, seed):
     nviol = 0
     infra = False
     reported = set()
+    unconfirmed = 0
     scale = float(os.environ.get('VERIF_SCALE', '1'))
     for (ename, config, qn, qs, tn, ts, opts) in spec['stages']:
         eng = load_engine(ename)
@@ -59,18 +69,21 @@ def cmd_check(prop, tier, seed):
         sys.stdout.flush()
         # confirm at most 4 distinct signatures per stage, lowest run index first
         seen = []
+        tried = 0
         for f in tot['found']:
             if f['prop'] != prop:
                 continue
             if f['sig'] in seen or f['sig'] in reported:
                 continue
-            if len(seen) >= 4:
+            if len(seen) >= 4 or tried >= 10:
                 break
+            tried += 1
             seen.append(f['sig'])
             res = core.confirm_and_report(eng, config, tot['exe'], f, prop, seed, known, opts=dict(opts, prop=prop))
-            if res['kind'] == 'infra':
-                print('INFRA: %s' % res['why'])
-                infra = True
+            if res['kind'] == 'unconfirmed':
+                print('UNCONFIRMED: %s' % res['why'])
+                unconfirmed += 1
+                seen.pop()
             elif res['kind'] == 'known':
                 reported.add(f['sig'])
                 print('KNOWN-FINDING: property=%s %s [signature %s; replay=%s]' % (prop, res['what'], res['sig'], res['path']))
@@ -95,9 +108,12 @@ def cmd_check(prop, tier, seed):
                             'sampling, not proof: a clean batch is evidence only',
                             'only the easy arithmetic back end at WSIZE=64 is built',
                             'oracles assert only what the property statement says (DESIGN.md 2.6)']))
-    if infra:
+    if nviol:
+        return 1
+    if infra or unconfirmed:
+        # findings that could not be confirmed by the gates and nothing else to report: lost determinism
         return 2
-    return 1 if nviol else 0
+    return 0
 
 
 def cmd_replay(path):
